@@ -496,21 +496,8 @@ Proof.
         rewrite (zcmp_eq_l v' v mn Hv' Hv (Hok mn Hi1) Heq) in N1.
         rewrite (zcmp_eq_l v' v mx Hv' Hv (Hok mx Hi2) Heq) in N2.
         destruct (zcmp v mn) as [[]|]; destruct (zcmp v mx) as [[]|]; congruence.
-  - (* <> *)
-    injection E as E. apply negb_true_iff in E.
-    specialize (Hne eq_refl).
-    destruct (zmin z) as [mn|] eqn:Emn; [|discriminate].
-    destruct (zmax z) as [mx|] eqn:Emx; [|discriminate].
-    apply negb_false_iff in Hm.
-    destruct (Hmn mn eq_refl) as [Hi1 Ha1]. destruct (Hmx mx eq_refl) as [Hi2 Ha2].
-    destruct (zcmp mn v) as [[]|] eqn:C1; try discriminate.
-    destruct (zcmp mx v) as [[]|] eqn:C2; try discriminate.
-    pose proof (Ha1 v' Hin) as N1. pose proof (Ha2 v' Hin) as N2.
-    rewrite (zcmp_eq_r v' mn v Hv' (Hok mn Hi1) Hv C1) in N1.
-    rewrite (zcmp_eq_r v' mx v Hv' (Hok mx Hi2) Hv C2) in N2.
-    pose proof (Hne v' Hin) as N3.
-    destruct (zcmp v' v) as [[]|] eqn:C3; try congruence.
-    apply zcmp_eq_feq in C3. congruence.
+  - (* <> : never pruned since 1879631 *)
+    discriminate Hm.
   - (* < *)
     assert (C : fcmp v' v = Some Lt) by (destruct (fcmp v' v) as [[]|]; cbn in E; congruence).
     apply fcmp_zcmp in C. pose proof (zcmp_some_nonnull _ _ _ C) as Nv'.
